@@ -608,3 +608,21 @@ Lemma pinned_add_crash_unsafe :
   let r := run (pinned_add 0) (cleanup_of 0) (Good 5) [FNone; FNone; FNone; FCrash (Some 10%Z)] FNone (fresh_st []) in
   out r = OCrashed /\ r_contains (disk (fin r)) 0 = true /\ r_get (disk (fin r)) 0 = ADecodeError.
 Proof. vm_compute. repeat split; reflexivity. Qed.
+
+(* ---------- what a concurrent reader finds while a write is in progress ---------- *)
+
+(* The directory at the moment the writer is inside its (n+1)-th effect, with whatever part [fl]
+   of the buffered data has reached the temporary file, is the directory found after the process
+   died there: [run] with n fault-free effects followed by FCrash. *)
+Definition paused_at (n : nat) (fl : option Z) : list fk := repeat FNone n ++ [FCrash fl].
+
+Lemma observer_view k p pl n fl d0 : disc k P0 p = true -> wf d0 ->
+  let d := disk (fin (run p (cleanup_of k) pl (paused_at n fl) FNone (fresh_st d0))) in
+  (forall f, f <> FDoc k -> f <> FTmp k -> lookup f d = lookup f d0) /\
+  (lookup (FDoc k) d = lookup (FDoc k) d0 \/ exists v, pl = Good v /\ lookup (FDoc k) d = Some (Full v)) /\
+  answers_ok d.
+Proof.
+  intros Hd Hwf d.
+  destruct (safe_generic k p pl (paused_at n fl) FNone d0 Hd Hwf) as (_ & A & B & _ & C).
+  auto.
+Qed.
